@@ -133,7 +133,14 @@ func (valdec mapDecoder) hashable(dec *Decoder, kp unsafe.Pointer) bool {
 	if valdec.kt.Kind() != reflect.Interface {
 		return true
 	}
-	if k := *(*interface{})(kp); k != nil && !reflect.TypeOf(k).Comparable() {
+	k := *(*interface{})(kp)
+	if b, ok := k.([]byte); ok {
+		// binary data cannot be hashed: as a key it is kept as a string (a string
+		// that is not valid UTF-8 travels as binary data)
+		*(*interface{})(kp) = string(b)
+		return true
+	}
+	if k != nil && !reflect.TypeOf(k).Comparable() {
 		if dec.Error == nil {
 			dec.Error = CastError{Source: reflect.TypeOf(k), Destination: valdec.kt.Type1()}
 		}
